@@ -22,6 +22,7 @@ What each relation mirrors (Rust, as read from the source):
 -/
 import QmcModel.Basic
 import QmcModel.IsingHam
+import QmcModel.Common
 
 namespace Qmc
 
@@ -151,17 +152,9 @@ def sameSkeletonB : Slots → Slots → Bool
   | some o :: b, some o' :: a => decide (o.sameSkel o') && decide (o.tagOk o') && sameSkeletonB b a
   | _, _ => false
 
-/-- the flip mask of one operator: which inputs / outputs changed -/
-def maskOp (o o' : Op) : Op :=
-  { vars := o.vars, bond := o.bond, ins := xorBits o.ins o'.ins, outs := xorBits o.outs o'.outs,
-    tagDiag := false, const := o.const }
-
-def maskSlots : Slots → Slots → Slots
-  | some o :: b, some o' :: a => some (maskOp o o') :: maskSlots b a
-  | _ :: b, _ :: a => none :: maskSlots b a
-  | _, _ => []
-
-/-- the flip set as a mask configuration on the same skeleton -/
+/-- the flip set as a mask configuration on the same skeleton. `maskOp` / `maskSlots` (the flip mask of
+one operator: which inputs / outputs changed; of a string) are in QmcModel/Common.lean, shared with
+Cluster.lean; they are written with `xorB`, which is `xorBits` (`xor` is an abbreviation of `bne`). -/
 def maskConfig (b a : Config) : Config :=
   { state := xorBits b.state a.state, slots := maskSlots b.slots a.slots }
 
